@@ -29,6 +29,8 @@ EXPLANATION = (
     " compile / eval on concrete rules, stand-ins for exit()). (O9.12) range descriptions with a second ellipsis"
     " in an item or without any item are refused (C01's constructor table in refusal mode). (O9.13) every valid"
     " value of every data format property is the same value with blanks around it."
+    " Added in rounds 8 and 9: (O9.7) a NAME token with white space folded into it stands for the bare name;"
+    " (O9.7c) nested scopes of a count expression; (O9.6) no part of a length may carry a negative limit."
 )
 ASSUMPTIONS = ["field and check constructors reject malformed rules as decided under C01, C02, C05"]
 
